@@ -165,19 +165,3 @@ pub mod partition { use super::*;
     pub fn exec(lhs: Variable, rhs: Variable) -> (r: Result<Variable, ExecError>) ensures r == op_partition(lhs, rhs) { unimplemented!() }
 }
 
-/// content of a mut cell at the moment of the update (heap dependence not modelled)
-pub uninterp spec fn cell_content(cell: Variable) -> Variable;
-/// src/instruction/bin_op/assign.rs — NOT verified (RwLock write guard); assumed to apply
-/// `function` to (current content, rhs), store and return the result
-pub mod assign { use super::*;
-    #[verifier::external_body]
-    pub fn exec<T: FnOnce(Variable, Variable) -> Variable>(lhs: Variable, rhs: Variable, function: T) -> (r: Variable)
-        requires call_requires(function, (cell_content(lhs), rhs)),
-        ensures call_ensures(function, (cell_content(lhs), rhs), r)
-    { unimplemented!() }
-    #[verifier::external_body]
-    pub fn try_exec<T: FnOnce(Variable, Variable) -> Result<Variable, ExecError>>(lhs: Variable, rhs: Variable, function: T) -> (r: Result<Variable, ExecError>)
-        requires call_requires(function, (cell_content(lhs), rhs)),
-        ensures call_ensures(function, (cell_content(lhs), rhs), r)
-    { unimplemented!() }
-}
